@@ -133,7 +133,18 @@ class StmtMixin:
         self.assume(t)
 
     def st_FunctionDef(self, node, fr):
-        fr.locals[node.name] = self.make_closure(node, fr)
+        import functools
+        c = self.make_closure(node, fr)
+        for dec in reversed(node.decorator_list):
+            # functools.wraps only copies metadata: dropped (logged)
+            if isinstance(dec, ast.Call):
+                f = self.eval(dec.func, fr)
+                if f is functools.wraps:
+                    self.note_drop(fr, '@wraps decorator', node)
+                    continue
+            d = self.eval(dec, fr)
+            c = self.call(d, [c], {})
+        fr.locals[node.name] = c
 
     def st_Raise(self, node, fr):
         if node.exc is None:
